@@ -2,13 +2,14 @@
 
 spec:      spec/DebFile.tla  (statement level: WellFormed / packed maps; code level: DOpen, DTgz,
            DNorm, DHas, DGet, DScripts, DMd5, DCtl transcribed from debian/debfile.py)
-design:    closed configurations MC_DebFile_sets (all 2^15 subsets of the 15-name universe),
+design:    closed configurations MC_DebFile_sets (all 2^15 subsets of the 15-name universe; quick: all 2^13
+           subsets of 13 names, i.e. without data.tar.gz.bak and control.tar.Z),
            MC_DebFile_orders[_quick] (all injective member sequences of length <= 4 / <= 3), MC_DebFile_orders_mid
            (length <= 5 over a 9-name sub-universe),
            MC_DebFile_content[_emit] (every content: 32 script subsets x data maps x md5 subsets),
            MC_DebFile_matrix (5 x 5 compressions x contents), MC_DebFile_nodecomp; invariants
            AcceptIffWellFormed, PartsAreCandidates, OrderIrrelevant, SpellingInvariant, ContentExact,
-           ExtGateDead, LazyDecompress.  Negative controls run in every check: AcceptFirstCandidate,
+           ExtGateDead, LazyDecompress.  Negative controls (run in every thorough check): AcceptFirstCandidate,
            InfoOptional (-> AcceptIffWellFormed violated), NormalizeSlash = FALSE (-> SpellingInvariant).
 history:   spec/DebFileCache.tla -- the query part as a history over TWO open packages (same file names,
            different contents / compression) with the state an implementation may keep between calls
@@ -16,6 +17,38 @@ history:   spec/DebFileCache.tla -- the query part as a history over TWO open pa
            returned dictionary) and Reopen (path rewritten and opened again); HistExact: every answer
            in every history = the stateless answer of DebFile.tla.  Negative controls:
            CacheKeyedByNameOnly, ResultsAliased, ContentCacheByFile (each violates HistExact).
+entry points (notes/API_SURFACE.md) -- every public way of opening a package and asking it; "all legs" =
+replay of CASE/PROBE/HTAB lines, recorded traces and two-package sessions; the variant used is drawn per
+case / per query, so they are mixed within one history (two live objects created in different ways, `in`
+then has_file then get_file().read() on the same file ...):
+  DebFile(fileobj=BytesIO)                       all legs ("fileobj")
+  DebFile(None, 'r', BytesIO)  (positional)      all legs ("fileobj-pos")
+  DebFile(fileobj=open(path, 'rb'))              all legs ("realfile": a real buffered file object)
+  DebFile(filename=path)                         all legs ("filename")
+  DebFile(path, 'r')  (positional)               all legs ("filename-pos")
+  user subclass of DebFile(filename=, mode='r')  all legs ("subclass")
+  mode other than 'r'                            out of domain: ArFile documents 'r' as the only supported mode
+  with DebFile(...) as d / __enter__ / __exit__  replay: every third package is entered and left as a context manager
+  close()                                        replay, histories (re-open closes the old object), sessions
+  .control / .data                               all legs;  .version: diagnostic (drift) only -- not in the statement
+  DebPart.tgz()                                  access path 5 (tgz().extractfile('./name').read()), tgz().getnames() in the listing check
+  has_file(name)                                 all legs, always together with `name in part` and part.__contains__(name)
+  iter(part) / list(part)                        replay (listing check: './name' listed <=> has_file per TLC; = tgz().getnames())
+  get_content(name)                              access path 0;  part[name] / __getitem__: paths 2 and 9
+  get_file(name).read()                          paths 1, 3 (chunked, other queries in between), 4 (two file objects)
+  get_content(name, encoding='latin-1')          path 6 (text result, keyword)        } only for content without '\r'
+  get_file(name, 'utf-8', 'surrogateescape')     path 7 (text result, positional)     } (TextIOWrapper translates
+  get_content(name, 'ascii', 'surrogateescape')  path 8 (text result, errors=)        }  newlines); mapped back to bytes
+  errors='replace' / 'ignore'                    out of domain for verdicts: lossy, the statement promises "the same contents"
+  DebControl.debcontrol() / scripts()            all legs, through DebFile.X() and DebFile.control.X() alternately
+  md5sums()                                      all legs: no argument, encoding= keyword, positional encoding, latin-1,
+                                                 ('ascii', 'surrogateescape') positional, utf-8 + errors= keyword (c07_obs.MD5_WAYS)
+  DebFile.changelog()                            outside the statement (package-name lookup + changelog parser, C04/C15): diagnostic run only
+  deprecated camelCase aliases                   none in this tree (debfile.py has no function_deprecated_by); c07_obs.alias_of picks up
+                                                 hasFile / getContent automatically if they appear; surface_audit() reports any
+                                                 public attribute of DebPart / DebData / DebControl / DebFile missing from this table as drift
+  ArFile API inherited by DebFile (getnames, getmember, members, extractfile, iteration, [])   property C06
+  copy / pickle of DebFile objects               out of domain: undocumented, the objects own open files
 binding:   (a) every CASE line (member list, expected Ok / DebError) is built as a real .deb (own ar
                writer, tarfile './name' members, gzip/bz2/lzma incl. FORMAT_ALONE) and opened by
                debian.debfile.DebFile; every PROBE line (content + complete table of expected query
@@ -50,8 +83,8 @@ SPELLINGS = ["plain", "dot", "slash"]
 PARTS = ["control", "data"]
 
 
-from c07_obs import (classify, open_deb, drop, obs_has, obs_get, obs_md5, obs_scripts, obs_ctl,  # noqa: E402
-                     mutate_result)
+from c07_obs import (classify, open_deb, drop, finish, pick_how, obs_has, obs_get, obs_md5, obs_scripts,  # noqa: E402
+                     obs_ctl, obs_listing, mutate_result, N_ACCESS, MD5_WAYS, HOWS_SHARED, HOWS_NAMED)
 
 
 # ------------------------------------------------------------------ spec -> code
@@ -95,7 +128,7 @@ def check_content(deb, probe, conc, rng, level, drift=None):
     order nor repetition nor the mutation may change an answer).  None or message"""
     qnames = sorted(probe["has"]["data"]["plain"])
     exp = expected_dicts(probe, conc)
-    full = level == "full"
+    full = level in ("full", "fullq")        # fullq (quick tier): half of the repetitions
     steps = []
     for p in PARTS:
         for n in qnames:
@@ -104,9 +137,13 @@ def check_content(deb, probe, conc, rng, level, drift=None):
                 sps = [rng.choice(SPELLINGS)]
             for sp in sps:
                 steps.append(("q", p, sp, n))
-    steps += [s for s in steps if full or rng.random() < 0.3]        # everything (again) later
+    again = {"full": 1.0, "fullq": 0.5}.get(level, 0.3)
+    steps += [s for s in steps if rng.random() < again]              # (almost) everything again later
     rng.shuffle(steps)
-    for op, enc in (("debcontrol", None), ("scripts", None), ("md5sums", None), ("md5sums", "utf-8")):
+    steps.insert(rng.randint(0, len(steps)), ("list", "control"))
+    steps.insert(rng.randint(0, len(steps)), ("list", "data"))
+    for op, enc in (("debcontrol", None), ("scripts", None), ("md5sums", rng.choice(MD5_WAYS[:2])),
+                    ("md5sums", rng.choice(MD5_WAYS[2:]))):
         at = sorted(rng.randint(0, len(steps)) for _ in range(3))
         for k, st in enumerate([("d", op, enc), ("mutate",), ("d", op, enc)]):
             steps.insert(at[k] + k, st)
@@ -130,6 +167,18 @@ def check_content(deb, probe, conc, rng, level, drift=None):
             if msg:
                 return msg
             continue
+        if st[0] == "list":
+            # iterating a part / tgz().getnames(): './name' is listed exactly when has_file('./name') holds
+            p = st[1]
+            err, listing = obs_listing(deb.control if p == "control" else deb.data)
+            if err:
+                return "iterating the %s part: %s" % (p, err)
+            for n in qnames:
+                if ("./" + conc.names[n] in listing) != probe["has"][p]["dot"][n]:
+                    return "iterating the %s part %s %r, specification says has_file = %s" % (
+                        p, "lists" if "./" + conc.names[n] in listing else "does not list", "./" + conc.names[n],
+                        probe["has"][p]["dot"][n])
+            continue
         _, p, sp, n = st
         part = deb.control if p == "control" else deb.data
         path = B.SPELL[sp] + conc.names[n]
@@ -138,8 +187,9 @@ def check_content(deb, probe, conc, rng, level, drift=None):
         err, found = obs_has(part, path)
         if err or found != eh:
             return "%s.has_file(%r) / in = %s, specification says %s" % (p, path, err or found, eh)
-        variant = rng.randrange(5) if (full or level == "stress") else rng.randrange(2)
-        err, data = obs_get(part, path, variant, disturb, rng)
+        variant = rng.randrange(N_ACCESS) if (full or level == "stress") else rng.randrange(2)
+        textok = eg == 0 or b"\r" not in conc.blob[eg]
+        err, data = obs_get(part, path, variant, disturb, rng, plain=conc.names[n], textok=textok)
         if err == "DebError" and eg == 0:
             # absent file reported with the package-format error instead of KeyError: accepted
             if drift is not None:
@@ -159,7 +209,13 @@ def run_pkg(mem, exp, probe, conc, style, how, level, seed, work, drift=None):
     exp = {'st': 'ok'|'DebError', 'unspec': bool}"""
     blob = B.build_deb(mem, conc, style)
     deb, st, path = open_deb(blob, how, work)
+    with_exit = seed % 3 == 0           # every third case: the object is used as a context manager
     try:
+        if deb is not None and with_exit:
+            try:
+                deb = deb.__enter__()
+            except Exception as e:
+                return "members %r: entering the `with` block raised %s" % (mem, classify(e))
         if exp["unspec"]:
             if st not in ("ok", "DebError"):
                 return "DebFile(%r) raised %s" % (mem, st)
@@ -181,11 +237,9 @@ def run_pkg(mem, exp, probe, conc, style, how, level, seed, work, drift=None):
         msg = check_content(deb, probe, conc, random.Random(seed), level, drift)
         if msg:
             return "members %r: %s" % (mem, msg)
-        try:
-            deb.close()
-        except Exception as e:
-            if drift is not None:
-                drift("close() raised %s" % type(e).__name__)
+        bad = finish(deb, with_exit)
+        if bad and drift is not None:
+            drift("%s raised %s" % ("leaving the with block" if with_exit else "close()", bad))
         return None
     finally:
         drop(path)
@@ -302,7 +356,7 @@ def record_trace(rng, work, given=None):
         conc, model = random_package(rng)
         mem = random_members(rng)
         style = "dpkg" if rng.random() < 0.8 or any(len(x) > 15 for x in mem) else "gnu"
-        how = "filename" if rng.random() < 0.2 else "fileobj"
+        how = pick_how(rng, 0.2)
         calls = None
     else:
         conc, model, mem, style, how, calls = (B.Conc.from_json(given["conc"]), given["model"], given["mem"],
@@ -326,18 +380,19 @@ def record_trace(rng, work, given=None):
                     n = rng.choice(B.CTRL_NAMES)
                 else:
                     n = "absent"
-                calls.append([rng.choice(["has", "get"]), p, rng.choice(SPELLINGS), n, rng.randrange(5)])
+                calls.append([rng.choice(["has", "get"]), p, rng.choice(SPELLINGS), n, rng.randrange(N_ACCESS)])
             # most queries are asked a second time later, through another access path; shuffled
-            calls += [c[:4] + [rng.randrange(5)] for c in calls if rng.random() < 0.6]
+            calls += [c[:4] + [rng.randrange(N_ACCESS)] for c in calls if rng.random() < 0.6]
             rng.shuffle(calls)
             # scripts() / md5sums() / debcontrol(): twice, the returned dictionary mutated in between
             for op in ("scripts", "md5sums", "debcontrol"):
                 if rng.random() < 0.7:
-                    enc = rng.choice([None, "utf-8"])
+                    enc = rng.choice(MD5_WAYS)
                     at = sorted(rng.randint(0, len(calls)) for _ in range(3))
-                    for k, cl in enumerate([[op, enc], ["mutate"], [op, rng.choice([enc, enc, None])]]):
+                    for k, cl in enumerate([[op, enc], ["mutate"], [op, rng.choice([enc, rng.choice(MD5_WAYS)])]]):
                         calls.insert(at[k] + k, cl)
         keep = []
+        packed = {"control": dict(conc.cfiles), "data": dict(conc.dfiles)}
 
         def disturb():
             try:
@@ -360,7 +415,9 @@ def record_trace(rng, work, given=None):
                     err, found = obs_has(part, path)
                     events.append({"op": "has", "p": p, "sp": sp, "n": mn, "err": err, "found": bool(found)})
                 else:
-                    err, data = obs_get(part, path, variant, disturb, random.Random(len(events)))
+                    pb = packed[p].get(conc.names[n])
+                    err, data = obs_get(part, path, variant, disturb, random.Random(len(events)), plain=conc.names[n],
+                                        textok=pb is None or b"\r" not in pb)
                     if err == "DebError":
                         herr, _ = obs_has(part, path)
                         if herr == "":          # the part opens: DebError here reports the absent file
@@ -482,6 +539,27 @@ def account(ctx, module, r, count=True):
         ctx.transitions += r.generated
 
 
+class CtxView:
+    """what core.validate_traces needs of a Ctx, with its own scratch directory and locked bookkeeping,
+    so that two trace validations (two TLC runs) can go side by side"""
+    _lock = __import__("threading").Lock()
+
+    def __init__(self, ctx, sub):
+        self.ctx = ctx
+        self.work = os.path.join(ctx.work, sub)
+        os.makedirs(self.work, exist_ok=True)
+        self.extra = ctx.extra
+        self.tlc_runs = []
+
+    def tlc(self, module, cfg, count=True, **kw):
+        kw.setdefault("timeout", 900 if self.ctx.tier == "quick" else 7200)
+        r = core.run_tlc(module, cfg, self.work, **kw)
+        with CtxView._lock:
+            self.tlc_runs.append(module)
+            account(self.ctx, module, r, count)
+        return r
+
+
 def read_tagged(r, tag):
     """the payloads of the <<"TAG", "json">> lines of a TLC run kept with keep_raw (core's generic
     value parser is too slow for 10^5 lines): the printed TLA+ string literal is a JSON string
@@ -518,18 +596,20 @@ def content_members(i, k, rnd, verdicts):
 
 def _work_content(args):
     """pool worker: tasks (i, k, probe record, seed, mem, expected verdict) -> (n, failures, drifts)"""
-    tasks, work = args
+    tasks, work, quick = args
     fails, drifts = [], []
     for i, k, pr, seed, mem, exp in tasks:
         rnd = random.Random(seed)
         qn = sorted(pr["probe"]["has"]["data"]["plain"])
         # size dimension (notes/SIZE_STRESS.md): some contents get big incompressible blobs, 30 / 100+
         # padding members and names around the tar limits; fewer queries, both opening modes
-        stress = 0 if k else 2 if i % 197 == 13 else 1 if i % 23 == 5 else 0
+        stress = 0 if k else 2 if i % (397 if quick else 197) == 13 else 1 if i % (31 if quick else 23) == 5 else 0
         conc = B.Conc(rnd, pr["pkg"], qn, canonical=(k == 0 and i % 7 == 0 and not stress), stress=stress)
         style = "dpkg" if any(len(x) > 15 for x in mem) or rnd.random() < 0.8 else "gnu"
-        how = "filename" if rnd.random() < (0.4 if stress else 0.05) else "fileobj"
-        level = "stress" if stress else "full"
+        how = pick_how(rnd, 0.4 if stress else 0.1)
+        # quick: the complete table for every second content, a sample of it (every name, usually one
+        # spelling) for the others
+        level = "stress" if stress else (("fullq" if i % 2 == 0 else "medium") if quick else "full")
         msg = run_pkg(mem, exp, pr["probe"], conc, style, how, level, seed, work, drifts.append)
         if msg:
             fails.append(((i, k), msg, pkg_case(mem, exp, pr["probe"], conc, style, how, level, seed)))
@@ -546,7 +626,7 @@ def _work_members(args):
         exp = {"st": c["st"], "unspec": c["unspec"]}
         probe, conc = concs[(j * 31 + len(mem)) % len(concs)]
         style = "dpkg" if any(len(x) > 15 for x in mem) or rnd.random() < 0.8 else "gnu"
-        how = "filename" if rnd.random() < 0.03 else "fileobj"
+        how = pick_how(rnd, 0.03)
         if c["st"] == "ok":
             level = "full" if j % full_every == 0 else "medium"
         else:
@@ -562,6 +642,63 @@ def _work_traces(args):
     """pool worker: record one random package per seed"""
     seeds, work = args
     return [record_trace(random.Random(sd), work) for sd in seeds]
+
+
+KNOWN_SURFACE = {
+    "DebPart": {"tgz", "has_file", "get_file", "get_content", "close"},
+    "DebData": set(),
+    "DebControl": {"scripts", "debcontrol", "md5sums"},
+    "DebFile": {"version", "data", "control", "debcontrol", "scripts", "md5sums", "changelog", "close",
+                # inherited from ArFile (property C06)
+                "getmember", "getmembers", "members", "getnames", "extractall", "extract", "extractfile"},
+}
+
+
+def surface_audit(ctx):
+    """diagnostic: a public attribute of the debfile classes that the entry-point table in the module
+    docstring does not know is reported as drift (camelCase aliases of known methods are exercised
+    automatically by c07_obs.alias_of)"""
+    import debian.debfile as m
+    unknown = []
+    inherited = set()
+    for cname_, known in KNOWN_SURFACE.items():
+        cls = getattr(m, cname_, None)
+        if cls is None:
+            ctx.drift("class %s is gone from debian.debfile" % cname_)
+            continue
+        inherited |= known if cname_ == "DebPart" else set()
+        have = {n for n in dir(cls) if not n.startswith("_")}
+        extra = have - known - (inherited if cname_ in ("DebData", "DebControl") else set())
+        missing = known - have
+        for n in sorted(extra):
+            unknown.append("%s.%s" % (cname_, n))
+        for n in sorted(missing):
+            ctx.drift("entry point %s.%s of the C07 table no longer exists" % (cname_, n))
+    for u in unknown:
+        ctx.drift("public entry point %s is not in the C07 entry-point table (not exercised unless it is a camelCase alias)" % u)
+    ctx.extra["public_surface_unknown"] = unknown
+
+
+def changelog_diag(ctx):
+    """diagnostic only -- changelog() is outside the statement (it combines debcontrol()['package'],
+    data.has_file / get_file and the changelog parser of C04 / C15)"""
+    import gzip
+    text = ("hello (1.0-1) unstable; urgency=medium\n\n  * Initial release.\n\n"
+            " -- A Maintainer <a@example.org>  Sat, 26 Sep 2026 12:00:00 +0000\n").encode()
+    fields = [("Package", "hello"), ("Version", "1.0-1"), ("Architecture", "all"),
+              ("Maintainer", "A Maintainer <a@example.org>"), ("Description", "x")]
+    for doc, want in (("changelog.Debian.gz", "1.0-1"), (None, None)):
+        dfiles = [("usr/share/doc/hello/" + doc, gzip.compress(text, mtime=0))] if doc else [("usr/bin/hello", b"x")]
+        conc = B.Conc.concrete({}, fields, [("control", B.render_control(fields)), ("md5sums", b"")], dfiles, [])
+        deb, st, _ = open_deb(B.build_deb([B.INFO, "control.tar.gz", "data.tar.xz"], conc), "fileobj", ctx.work)
+        try:
+            cl = deb.changelog() if st == "ok" else None
+            got = None if cl is None else str(cl.version)
+        except Exception as e:
+            got = "EXC:" + type(e).__name__
+        if got != want:
+            ctx.drift("changelog() of a package %s changelog.Debian.gz gives %r (expected %r)" % ("with" if doc else "without", got, want))
+    ctx.extra["changelog_diag"] = "done"
 
 
 def decompressor_diag(ctx):
@@ -623,7 +760,7 @@ def run(ctx):
     quick = ctx.tier == "quick"
     rng = ctx.rng
     W = int(os.environ.get("VERIF_TLC_WORKERS") or (4 if quick else 8))
-    nproc = int(os.environ.get("VERIF_REPLAY_PROCS") or (4 if quick else 8))
+    nproc = int(os.environ.get("VERIF_REPLAY_PROCS") or (6 if quick else 8))
     ctx.assumptions += [
         "member-name universe of the model: debian-binary, control.tar/data.tar x {none,gz,bz2,xz,lzma}, _gpgorigin, control.tar.zst, data.tar.gz.bak, control.tar.Z; all subsets, all orders up to length %d%s" % (3 if quick else 4, "" if quick else ", up to length 5 over a 9-name sub-universe"),
         "packages are built the way dpkg-deb builds them (D5): tar members './name', distinct ar member names; file names have no leading/trailing blank, no newline, do not start with '/' or './'",
@@ -662,15 +799,16 @@ def _run(ctx, quick, rng, W, nproc, procs, pool, timeout, timing, lap):
         return pool.submit(core.run_tlc, module, cfg, ctx.work, workers=workers, want_tags=set(),
                            timeout=timeout, keep_raw=True, java_opts=C1 if (quick or small) else None)
     jobs = {"content": tlc("MC_DebFile_content_emit.cfg" if quick else "MC_DebFile_content.cfg"),
-            "sets": tlc("MC_DebFile_sets.cfg"),
+            "sets": tlc("MC_DebFile_sets_quick.cfg" if quick else "MC_DebFile_sets.cfg"),
             "orders": tlc("MC_DebFile_orders_quick.cfg" if quick else "MC_DebFile_orders.cfg")}
     if not quick:
         jobs["orders_mid"] = tlc("MC_DebFile_orders_mid.cfg")
         jobs["matrix"] = tlc("MC_DebFile_matrix.cfg")
         jobs["nodecomp"] = tlc("MC_DebFile_nodecomp.cfg", 2, True)
     jobs["hist"] = tlc("MC_DebFileCache.cfg", 2, True, "DebFileCache")
-    negs = [(cfg, inv, tlc(cfg, 2, True)) for cfg, inv in (NEGATIVE[:2] if quick else NEGATIVE)]
-    negs += [(cfg, inv, tlc(cfg, 2, True, "DebFileCache")) for cfg, inv in (NEGATIVE_HIST[:1] if quick else NEGATIVE_HIST)]
+    # the spec-level negative controls (six more JVMs) run in the thorough tier only
+    negs = [] if quick else [(cfg, inv, tlc(cfg, 2, True)) for cfg, inv in NEGATIVE]
+    negs += [] if quick else [(cfg, inv, tlc(cfg, 2, True, "DebFileCache")) for cfg, inv in NEGATIVE_HIST]
     results = {}
 
     def result(name, tag=None):
@@ -688,7 +826,7 @@ def _run(ctx, quick, rng, W, nproc, procs, pool, timeout, timing, lap):
     trace_jobs = [procs.apply_async(_work_traces, ((ch, ctx.work),)) for ch in chunks(tseeds, nproc)]
     sseeds = [rng.getrandbits(48) for _ in range(80 if quick else 800)]
     session_jobs = [procs.apply_async(_work_sessions, ((ch, ctx.work),)) for ch in chunks(sseeds, nproc)]
-    hseeds = [rng.getrandbits(48) for _ in range(60 if quick else 500)]
+    hseeds = [rng.getrandbits(48) for _ in range(40 if quick else 500)]
 
     pending = []        # (label, async result)
     n_pkg = 0
@@ -754,7 +892,7 @@ def _run(ctx, quick, rng, W, nproc, procs, pool, timeout, timing, lap):
             mem, exp = content_members(i, k, random.Random(sd + 1), verdicts)
             tasks.append((i, k, pr, sd, mem, exp))
     for ch in chunks(tasks, nproc * 2):
-        pending.append(("content", procs.apply_async(_work_content, ((ch, ctx.work),))))
+        pending.append(("content", procs.apply_async(_work_content, ((ch, ctx.work, quick),))))
     lap("dispatch_content")
 
     # ---- thorough: the 5 x 5 matrix x contents, exactly as TLC printed it
@@ -764,13 +902,16 @@ def _run(ctx, quick, rng, W, nproc, procs, pool, timeout, timing, lap):
         # a PROBE line is printed only for a member list TLC accepted
         tasks = [(i, 1, pr, rng.getrandbits(32), pr["mem"], {"st": "ok", "unspec": False}) for i, pr in enumerate(mp)]
         for ch in chunks(tasks, nproc * 2):
-            pending.append(("matrix", procs.apply_async(_work_content, ((ch, ctx.work),))))
+            pending.append(("matrix", procs.apply_async(_work_content, ((ch, ctx.work, quick),))))
         ctx.extra["matrix_cases"] = len(mp)
 
     # ---- code -> spec, validation (TLC) while the replay workers are busy
     traces = [t for j in trace_jobs for t in j.get(timeout)]
+    sessions = [t for j in session_jobs for t in j.get(timeout) if t]
     lap("record_traces")
-    rejected, info = validate(ctx, traces)
+    # the two trace validations (two TLC runs) go side by side
+    sess_val = pool.submit(H.validate_sessions, CtxView(ctx, "sessions"), sessions, C1 if len(sessions) < 500 else None)
+    rejected, info = validate(CtxView(ctx, "traces"), traces)
     lap("validate_traces")
     ctx.evaluations += len(traces)
     for i in range(len(traces)):
@@ -794,8 +935,7 @@ def _run(ctx, quick, rng, W, nproc, procs, pool, timeout, timing, lap):
                                         for k in sorted({t["events"][0]["st"] for t in traces})}
 
     # ---- code -> spec (2): recorded two-package sessions validated against DebFileCache.tla
-    sessions = [t for j in session_jobs for t in j.get(timeout) if t]
-    srej, sinfo = H.validate_sessions(ctx, sessions, java_opts=C1 if len(sessions) < 500 else None)
+    srej, sinfo = sess_val.result()
     lap("validate_sessions")
     ctx.evaluations += len(sessions)
     for i in range(len(sessions)):
@@ -863,6 +1003,8 @@ def _run(ctx, quick, rng, W, nproc, procs, pool, timeout, timing, lap):
         account(ctx, "DebFileCache" if name == "hist" else "DebFile", r)
     ctx.extra["spec_negative_controls"] = ncontrols
     decompressor_diag(ctx)
+    surface_audit(ctx)
+    changelog_diag(ctx)
     ev = {}
     for t in traces:
         for e in t["events"]:
@@ -870,7 +1012,7 @@ def _run(ctx, quick, rng, W, nproc, procs, pool, timeout, timing, lap):
     ctx.extra["trace_events_per_action"] = ev
     ctx.extra["model_constants"] = {
         "Universe": "debian-binary, control.tar[.gz|.bz2|.xz|.lzma], data.tar[...], _gpgorigin, control.tar.zst, data.tar.gz.bak, control.tar.Z (15 names)",
-        "sets": "all 2^15 subsets", "orders": "injective sequences of length <= %d" % (3 if quick else 4),
+        "sets": "all 2^13 subsets of 13 names (thorough: 2^15 of 15)" if quick else "all 2^15 subsets", "orders": "injective sequences of length <= %d" % (3 if quick else 4),
         "orders_mid": None if quick else "injective sequences of length <= 5 over 9 names",
         "content": "32 script subsets x partial maps {f1,f2%s} -> {11,12} x md5 subsets" % ("" if quick else ",f3"),
         "matrix": None if quick else "25 compression pairs x 32 script subsets x {f1} -> {11,12} x md5 subsets",
